@@ -153,6 +153,16 @@ func c07Tampers() []c07Tamper {
 	cp := func(u *url.URL) *url.URL { c := *u; return &c }
 	return []c07Tamper{
 		{"identity", "", func(t string, u *url.URL, s string) (string, *url.URL, string) { return t, cp(u), s }},
+		// a URL value whose RawPath no longer belongs to its Path (the caller changed Path after parsing)
+		{"stale-raw-path-with-archive-suffix", "archive-form", func(t string, u *url.URL, s string) (string, *url.URL, string) {
+			c := cp(u)
+			if t != "git" {
+				c.RawPath = "/a%2Fb.tgz"
+				c.Path = "/dist/module.zip"
+				c.RawQuery = ""
+			}
+			return t, c, s
+		}},
 		{"userinfo-user", "userinfo", func(t string, u *url.URL, s string) (string, *url.URL, string) {
 			c := cp(u)
 			c.User = url.User("git")
@@ -316,6 +326,49 @@ func init() {
 			return c07CheckString(kept[idx], false, "")
 		},
 	}
+	// the same URL offered under two source types, one after the other in one
+	// process: what was accepted under the first type says nothing about the second
+	typePairs := [][2]string{
+		{"git::https://example.com/org/repo.git?ref=v1", "https://example.com/org/repo.git?ref=v1"},
+		{"https://example.com/m.tgz?token=abc&archive=tar.gz", "GIT::https://example.com/m.tgz?token=abc&archive=tar.gz"},
+		{"git::https://example.com/x.tgz", "https://example.com/x.tgz?checksum=md5:1"},
+		{"git::ssh://example.com/r.tgz", "https::ssh://example.com/r.tgz"},
+		{"https://example.com/a.tgz//sub", "git::https://example.com/a.tgz//sub?archive=tgz"},
+		{"git::https://example.com/r.git//m?ref=a", "http::https://example.com/r.git//m?ref=a"},
+	}
+	sameURL := &fw.Phase{
+		Name: "same-url-under-two-source-types", Exhaustive: true,
+		N: func(string) int { return len(typePairs) * 2 },
+		Run: func(env *fw.Env, idx int) fw.Result {
+			p := typePairs[idx/2]
+			first, second := p[0], p[1]
+			if idx%2 == 1 {
+				first, second = second, first
+			}
+			r1 := c07CheckString(first, false, "")
+			if r1.Verdict == fw.Violated {
+				return r1
+			}
+			// also through the constructor, from the parts of what the first parse accepted
+			if v, err := sourceaddrs.ParseRemoteSource(first); err == nil {
+				u := v.Package().URL()
+				for _, t := range []string{"git", "https", "http"} {
+					if got, err := sourceaddrs.MakeRemoteSource(t, u, v.SubPath()); err == nil {
+						if why := c07Policy(got); why != "" {
+							r1.Verdict, r1.Finding = fw.Violated, "constructor-policy:"+why
+							r1.Msg = fmt.Sprintf("after %q was parsed, MakeRemoteSource(%q, %q, %q) accepted an address violating the policy: %s", first, t, u.String(), v.SubPath(), why)
+							return r1
+						}
+					}
+				}
+			}
+			r2 := c07CheckString(second, false, "")
+			r2.Case = map[string]string{"parsed_before": first, "input": second}
+			r2.Hash = fw.HashString(first + "|" + second)
+			r2.NonTrivial = true
+			return r2
+		},
+	}
 	constructor := &fw.Phase{
 		Name: "constructor-from-parts",
 		N:    fw.Fixed(30000, 120000),
@@ -367,6 +420,6 @@ func init() {
 		Rule: "strings from the documented grammar (must be accepted), an exhaustive table of single-rule violations x 4 spellings (must be rejected), mutated and arbitrary strings (if accepted the policy must hold) go through ParseSource, ParseFinalSource, ParseRemoteSource and ParseRemotePackage; " +
 			"(type, URL, sub-path) triples taken from accepted addresses with exactly one part tampered go through MakeRemoteSource. non-trivial = accepted by some route, or built to violate exactly one rule; distinct = input string / (base, tamper)",
 		Assumptions: []string{"the policy predicate in props/c07.go is the documented transport policy", "must-accept covers only forms documented in the package's comments and tests"},
-		Phases:      []*fw.Phase{mustAccept, ruleViol, arbitrary, distilled, constructor},
+		Phases:      []*fw.Phase{mustAccept, ruleViol, arbitrary, distilled, sameURL, constructor},
 	})
 }
